@@ -1,6 +1,7 @@
 package database
 
 import (
+	"math"
 	"runtime"
 	"sort"
 	"strings"
@@ -562,7 +563,7 @@ func (db *Database) performFuzzySearch(query string, options SearchOptions) []Se
 
 	var results []SearchResult
 	for i, match := range matches {
-		if i >= options.Limit*2 { // Get more for better selection
+		if i >= candidateLimit(options.Limit) { // Get more for better selection
 			break
 		}
 
@@ -594,6 +595,20 @@ func (db *Database) performFuzzySearch(query string, options SearchOptions) []Se
 	}
 
 	return results
+}
+
+// candidateLimit is twice the result limit (candidates are over-collected for better selection),
+// without overflowing: for a limit above MaxInt/2 the product is negative, and a negative candidate
+// count made the TF-IDF searcher slice its results out of range (panic) and the typo fallback stop
+// before its first match. A non-positive limit collects no candidates.
+func candidateLimit(limit int) int {
+	if limit <= 0 {
+		return 0
+	}
+	if limit > math.MaxInt/2 {
+		return math.MaxInt
+	}
+	return limit * 2
 }
 
 // fuzzyFind runs the fuzzy matcher on targets made free of NUL characters: sahilm/fuzzy takes a
@@ -789,7 +804,7 @@ func (db *Database) SearchWithNLP(query string, options SearchOptions) []SearchR
 
 	// Use shared TF-IDF searcher if available
 	if db.tfidf != nil && db.cmdIndex != nil {
-		tfidfResults := db.tfidf.Search(query, options.Limit*2) // Get more results for better selection
+		tfidfResults := db.tfidf.Search(query, candidateLimit(options.Limit)) // Get more results for better selection
 
 		// Convert TF-IDF results to database SearchResult format
 		var results []SearchResult
@@ -821,7 +836,7 @@ func (db *Database) SearchWithNLP(query string, options SearchOptions) []SearchR
 	}
 
 	tfidfSearcher := nlp.NewTFIDFSearcher(nlpCommands)
-	tfidfResults := tfidfSearcher.Search(query, options.Limit*2)
+	tfidfResults := tfidfSearcher.Search(query, candidateLimit(options.Limit))
 
 	// Convert TF-IDF results to database SearchResult format
 	var results []SearchResult
